@@ -3,39 +3,39 @@
 import json
 # (finding id, [properties where its classifier exists], status, commit, what, witness)
 F = [
- ("F01", ["C01"], "open", "", "ts_fdiff warm-up positions (i < w-1) use the coefficients of the oldest lags", "[1] d=0.5 w=2 -> -0.5, expected 1"),
- ("F02", ["C05", "C06"], "open", "", "ts_vewm returns +-inf on an all-null window with min_periods 0 (and so depends on pre-window history)", "[-2,1,null,null,null] w=3 mp=0 pos 4 -> -inf"),
- ("F03", ["C05"], "open", "", "ts_vargmin/ts_vargmax report an offset for an all-null window with min_periods 0", "[null] w=1 mp=0 -> 1"),
- ("F04", ["C04", "C05"], "open", "", "ts_vreg_resid_mean uses n*sum(t^2) in the residual sum", "[0,1] w=2 mp=0 -> 2.5, expected 0"),
- ("F05", ["C04", "C05"], "open", "", "ts_vcov computes n-1 on usize with n=0 when min_periods is 0", "[0]x[null] w=2 mp=0 -> overflow panic"),
- ("F06", ["C05"], "open", "", "ts_vrank on empty input computes 0-1", "[] w=1"),
- ("F07", ["C05", "C07"], "open", "", "extrema family on an empty non-Vec container trips assert!(window > 0)", "empty VecDeque ts_vmin(1, 0)"),
- ("F08", ["C07"], "open", "", "try_as_slice() of a reversed contiguous ndarray view returns the memory-order slice", "view [0,1] with step -1 -> Some([1,0])"),
- ("F09", ["C08", "C12"], "open", "", "vquantile / vmedian return null when the single valid element is not first", "[null, 0] q=0 -> null"),
- ("F10", ["C12"], "open", "", "vrank of a length-1 all-null input is 1", "[null] -> [1.0]"),
- ("F11", ["C09", "C13"], "open", "", "shift has no guard for |n| > len: underflow panic for n > 0, n_abs items for n < 0", "[] shift(1)"),
- ("F12", ["C09"], "open", "", "TrustIter::size_hint is constant: after partial consumption it over-reports", "vpartition(0) after one next(): hint 1, remaining 0"),
- ("F13", ["C12"], "open", "", "vpartition(sort=true) yields len items when len < k+1 (no padding)", "[] k=0 -> []"),
- ("F14", ["C10"], "open", "", "window 0 through the *_to bodies returns without writing; the output buffer is exposed uninitialised", "vec![0.0].ts_vsum_to(0, ..) / Vec fast path"),
- ("F15", ["C10"], "open", "", "rolling2_*_to read other.uget(i) for i >= other.len() when the second series is shorter", "ts_vcov first len 1, second len 0"),
- ("F16", ["C11"], "open", "", "vmean_var / vvar / vstd return 0 instead of null for a single valid observation", "[0.0] mp=0 -> var 0"),
- ("F17", ["C06", "C13"], "open", "", "vdiff(n>0, fill) yields x[i]-fill in the first n places instead of fill", "[0,0] n=1 fill=7 -> [-7,0]"),
- ("F18", ["C13"], "open", "", "vdiff(0) / vpct_change(0) return 0 at null (and zero-base) positions", "[null] vdiff(0) -> [0]"),
- ("F19", ["C14"], "open", "", "vsorted_unique_idx(Keep::Last) with leading nulls emits the index of the last leading null", "[null,0] -> [0,1]"),
- ("F20", ["C14"], "open", "", "vcut with open outer bounds rejects the type's minimum (right-closed) / maximum (left-closed)", "i32::MIN, edges [], 1 label, right"),
- ("F21", ["C15"], "open", "", "null <-> time casts: NaT -> float is -9.2e18, NaN -> DateTime/TimeDelta/Time is the epoch/zero, TimeDelta::nat() -> numbers panics", "DateTime::nat() as f64"),
- ("F22", ["C16"], "open", "", "into_unit divides / multiplies the NaT sentinel and truncates toward zero before 1970", "-1 ms -> s gives 0, expected -1"),
- ("F23", ["C16"], "open", "", "Time::nat() +- duration is not NaT (or overflows)", "Time::nat() + 1ns"),
- ("F24", ["C17"], "open", "", "duration_trunc to months uses year*12+month and never resets day and time", "1970-01-01 trunc 2mo -> 1969-12-01"),
- ("F25", ["C18"], "open", "", "TimeDelta::parse panics (unwrap on the integer parse, unchecked arithmetic) or silently truncates an overflowing month count", "\"abc\"; \"200000000y\"; \"2147483648mo\""),
- ("F26", ["C18"], "open", "", "DateTime<Nanosecond>::parse panics on instants outside the i64 nanosecond range", "\"3000-01-01\""),
- ("F27", ["C19"], "open", "", "integer range truncates the element count and turns an empty / backward span into a huge length", "range(1,0,1) i32 -> capacity overflow; range(0,5,2) -> [0,2]"),
- ("F28", ["C20"], "open", "", "half_life's bisection inverts its bracket ((last_n, n) = (life, last_n)) and underflows", "ramp 0..5 mp=1 -> overflow panic"),
- ("F29", ["C02", "C07"], "open", "", "Vec/array/ndarray inputs returning a Polars container panic: their fast paths use O::uninit + uset, unsupported by ChunkedArray", "vec![10].rolling_apply::<Int32Chunked,_,_>(1, f, None)"),
- ("F30", ["C03"], "open", "", "ts_vminmaxnorm subtracts in the integer element type: overflow when max-min exceeds the type's range", "[-1, 2147483647] i32 w=2"),
- ("F31", ["C09"], "open", "", "the Polars container iterator (titer of a ChunkedArray) keeps its initial size hint while being consumed", "Float64Chunked [0.0]: after next() hint still 1"),
- ("F32", ["C15"], "open", "", "a null float cast to String gives \"NaN\", which the string type does not regard as null", "f64::NAN.cast::<String>()"),
- ("F34", ["C20"], "open", "", "half_life treats a null correlation inside the bisection as an exact hit and stops early", "ramp 0..9 mp=5 -> 6, expected 5"),
+ ("F01", ["C01"], "fixed", "6bded67", "ts_fdiff warm-up positions (i < w-1) use the coefficients of the oldest lags", "[1] d=0.5 w=2 -> -0.5, expected 1"),
+ ("F02", ["C05", "C06"], "fixed", "7b77ba3", "ts_vewm returns +-inf on an all-null window with min_periods 0 (and so depends on pre-window history)", "[-2,1,null,null,null] w=3 mp=0 pos 4 -> -inf"),
+ ("F03", ["C05"], "fixed", "85ee07f", "ts_vargmin/ts_vargmax report an offset for an all-null window with min_periods 0", "[null] w=1 mp=0 -> 1"),
+ ("F04", ["C04", "C05"], "fixed", "bde0795", "ts_vreg_resid_mean uses n*sum(t^2) in the residual sum", "[0,1] w=2 mp=0 -> 2.5, expected 0"),
+ ("F05", ["C04", "C05"], "fixed", "42e4cbb", "ts_vcov computes n-1 on usize with n=0 when min_periods is 0", "[0]x[null] w=2 mp=0 -> overflow panic"),
+ ("F06", ["C05"], "fixed", "59c18b3", "ts_vrank on empty input computes 0-1", "[] w=1"),
+ ("F07", ["C05", "C07"], "fixed", "59c18b3", "extrema family on an empty non-Vec container trips assert!(window > 0)", "empty VecDeque ts_vmin(1, 0)"),
+ ("F08", ["C07"], "fixed", "611f660", "try_as_slice() of a reversed contiguous ndarray view returns the memory-order slice", "view [0,1] with step -1 -> Some([1,0])"),
+ ("F09", ["C08", "C12"], "fixed", "e0fee11", "vquantile / vmedian return null when the single valid element is not first", "[null, 0] q=0 -> null"),
+ ("F10", ["C12"], "fixed", "b852aca", "vrank of a length-1 all-null input is 1", "[null] -> [1.0]"),
+ ("F11", ["C09", "C13"], "fixed", "8a6677a", "shift has no guard for |n| > len: underflow panic for n > 0, n_abs items for n < 0", "[] shift(1)"),
+ ("F12", ["C09"], "fixed", "b9fa512", "TrustIter::size_hint is constant: after partial consumption it over-reports", "vpartition(0) after one next(): hint 1, remaining 0"),
+ ("F13", ["C12"], "fixed", "6fcb0d9", "vpartition(sort=true) yields len items when len < k+1 (no padding)", "[] k=0 -> []"),
+ ("F14", ["C10"], "fixed", "d8b50a5", "window 0 through the *_to bodies returns without writing; the output buffer is exposed uninitialised", "vec![0.0].ts_vsum_to(0, ..) / Vec fast path"),
+ ("F15", ["C10"], "fixed", "590239c", "rolling2_*_to read other.uget(i) for i >= other.len() when the second series is shorter", "ts_vcov first len 1, second len 0"),
+ ("F16", ["C11"], "fixed", "5768331", "vmean_var / vvar / vstd return 0 instead of null for a single valid observation", "[0.0] mp=0 -> var 0"),
+ ("F17", ["C06", "C13"], "fixed", "2d7c32c", "vdiff(n>0, fill) yields x[i]-fill in the first n places instead of fill", "[0,0] n=1 fill=7 -> [-7,0]"),
+ ("F18", ["C13"], "fixed", "d01288e", "vdiff(0) / vpct_change(0) return 0 at null (and zero-base) positions", "[null] vdiff(0) -> [0]"),
+ ("F19", ["C14"], "fixed", "813feb9", "vsorted_unique_idx(Keep::Last) with leading nulls emits the index of the last leading null", "[null,0] -> [0,1]"),
+ ("F20", ["C14"], "fixed", "389750d", "vcut with open outer bounds rejects the type's minimum (right-closed) / maximum (left-closed)", "i32::MIN, edges [], 1 label, right"),
+ ("F21", ["C15"], "fixed", "1fdb9e8", "null <-> time casts: NaT -> float is -9.2e18, NaN -> DateTime/TimeDelta/Time is the epoch/zero, TimeDelta::nat() -> numbers panics", "DateTime::nat() as f64"),
+ ("F22", ["C16"], "fixed", "0a6408e", "into_unit divides / multiplies the NaT sentinel and truncates toward zero before 1970", "-1 ms -> s gives 0, expected -1"),
+ ("F23", ["C16"], "fixed", "36b06a0", "Time::nat() +- duration is not NaT (or overflows)", "Time::nat() + 1ns"),
+ ("F24", ["C17"], "fixed", "38bf4eb", "duration_trunc to months uses year*12+month and never resets day and time", "1970-01-01 trunc 2mo -> 1969-12-01"),
+ ("F25", ["C18"], "fixed", "24604d0+31ee079", "TimeDelta::parse panics (unwrap on the integer parse, unchecked arithmetic) or silently truncates an overflowing month count", "\"abc\"; \"200000000y\"; \"2147483648mo\""),
+ ("F26", ["C18"], "fixed", "bb950f1", "DateTime<Nanosecond>::parse panics on instants outside the i64 nanosecond range", "\"3000-01-01\""),
+ ("F27", ["C19"], "fixed", "296dc73", "integer range truncates the element count and turns an empty / backward span into a huge length", "range(1,0,1) i32 -> capacity overflow; range(0,5,2) -> [0,2]"),
+ ("F28", ["C20"], "fixed", "86ca491", "half_life's bisection inverts its bracket ((last_n, n) = (life, last_n)) and underflows", "ramp 0..5 mp=1 -> overflow panic"),
+ ("F29", ["C02", "C07"], "fixed", "833cd1d", "Vec/array/ndarray inputs returning a Polars container panic: their fast paths use O::uninit + uset, unsupported by ChunkedArray", "vec![10].rolling_apply::<Int32Chunked,_,_>(1, f, None)"),
+ ("F30", ["C03"], "fixed", "1762374", "ts_vminmaxnorm subtracts in the integer element type: overflow when max-min exceeds the type's range", "[-1, 2147483647] i32 w=2"),
+ ("F31", ["C09"], "fixed", "e718092", "the Polars container iterator (titer of a ChunkedArray) keeps its initial size hint while being consumed", "Float64Chunked [0.0]: after next() hint still 1"),
+ ("F32", ["C15"], "fixed", "c99e7f8", "a null float cast to String gives \"NaN\", which the string type does not regard as null", "f64::NAN.cast::<String>()"),
+ ("F34", ["C20"], "fixed", "86ca491", "half_life treats a null correlation inside the bisection as an exact hit and stops early", "ramp 0..9 mp=5 -> 6, expected 5"),
 ]
 out = {"_comment": "Genuine defects of Teamon9161/tevec found by the checks (DESIGN.md section 6). status=open: recorded, not repaired: the check prints KNOWN-FINDING and exits 0 for cases matching the narrow classifier compiled into the check under this id. status=fixed: repaired by the named commit in /repo; a fixed entry suppresses nothing. This file is never written at check run time.",
        "findings": []}
